@@ -344,6 +344,10 @@ def cases(ctx):
             m = rng.choice([1, 2, 3, 3, 4, 5])
             fail = (rng.randrange(m),) if rng.random() < 0.45 else ()
             yield batch_case(rng, m, fail=fail)
+        # more frames than two rounds of tasks (workers x chunksize x 2): a pool fed in bounded rounds must still deliver all
+        for m, w, cs in ((5, 2, 1), (7, 2, 1), (8, 1, 2), (5, 1, 1), (8, 3, 1), (7, 1, 3)):
+            for op in ('apply', 'apply_items', 'sum', 'iloc'):
+                yield batch_case(rng, m, op=op, workers=w, chunksize=cs)
         for _ in range(30):
             m = rng.choice([1, 2, 3, 4, 5])
             fail = (rng.randrange(m),) if rng.random() < 0.3 else ()
